@@ -1,16 +1,24 @@
 import PsV.Props.C04
+import PsV.Proofs.ReadsEval
 /-!
-# C05 — lookup and evaluation are memory-safe for every coordinate vector (first part)
+# C05 — lookup and evaluation are memory-safe for every coordinate vector
 
-`C05_nan_lookup_rejected`: a NaN coordinate (every comparison false) never reaches the search.
-Together with `C04_searchCenters` (every non-NaN coordinate: terminates, centre in
-`[order, nknots-order-2]`) this gives: for *every* coordinate the lookup terminates and a returned
-centre is in range. The index-range theorems for the evaluation routines are in `PsV.Props.C05b`.
+* `C05_nan_lookup_rejected`: a NaN coordinate (every comparison false) is rejected before any search;
+  with `C04_searchCenters` (non-NaN coordinates: terminates, centres in `[order, nknots-order-2]`)
+  the lookup terminates for *every* coordinate and returned centres are in range.
+* `C05_eval_reads_owned`: for **every** arithmetic — arbitrary comparison outcomes, so NaN, ±inf,
+  denormals, anything — and centres in range, the result of `ndsplineeval` / `ndsplineeval_deriv`
+  (bitmask derivatives, arbitrary-order derivatives: `evalModes` with any mode list) is unchanged when
+  the knot arrays are altered outside `[-order, nknots+order)` and the coefficient array outside
+  `[0, ncoef)`: every index passed to `knots[·]` / `coefficients[·]` is inside owned storage
+  (`allocate(nknots+2*order)+order`, `ncoef = strides[0]*naxes[0]`).  All loops of the model are
+  structural recursions or fuel-bounded (margin loops: `nknots+1` steps), so they terminate.
+* `C05_gradient_rows_read_owned`: the same for the rows of the value-plus-gradient evaluation;
+  `C05_gradient_refused`: more than `maxDim-1` dimensions are refused before any lane is touched.
 -/
 namespace PsV
 
-/-- NaN in any dimension ⇒ the n-dimensional lookup rejects (or has rejected earlier), it never
-returns centres and never loops. -/
+/-- NaN in any dimension ⇒ the n-dimensional lookup rejects, it never returns centres. -/
 theorem C05_nan_lookup_rejected {α : Type} [Cmp α] :
     ∀ (axes : List (Axis (Option α))) (xs : List (Option α)), axes.length = xs.length → none ∈ xs →
       (∀ a ∈ axes, ∀ x, searchAxis a.order a.nknots a.knots x ≠ .nonterm) →
@@ -36,5 +44,33 @@ theorem C05_nan_lookup_rejected {α : Type} [Cmp α] :
         | reject => rfl
         | ok c => rfl
         | nonterm => exact absurd h (hnt a (by simp) _)
+
+variable {α : Type} [A : Arith α]
+
+/-- **Evaluation touches only owned memory**, for every coordinate vector and every arithmetic. -/
+theorem C05_eval_reads_owned (T T' : Table α) (xs : List α) (cs : List Nat) (ms : List BasisMode)
+    (hne : T.dims ≠ []) (hshape : SameShape T.dims T'.dims) (hrm : RowMajor T.dims)
+    (hc : CentersInRange T.dims cs) (hx : T.dims.length = xs.length) (hm : T.dims.length = ms.length)
+    (hcoef : AgreeOn T.coef T'.coef 0 ((ncoef T.dims : Int) - 1)) :
+    evalModes T xs cs ms = evalModes T' xs cs ms :=
+  evalModes_congr T T' xs cs ms hne hshape hrm hc hx hm hcoef
+
+/-- the basis rows of the gradient code read only owned knot storage -/
+theorem C05_gradient_rows_read_owned (t t' : Int → α) (nknots : Nat) (x : α) (c n : Nat)
+    (hc1 : n ≤ c) (hc2 : c + n + 2 ≤ nknots)
+    (h : AgreeOn t t' (-(n : Int)) ((nknots : Int) + n - 1)) :
+    bsplineNonzero t nknots x c n = bsplineNonzero t' nknots x c n :=
+  bsplineNonzero_congr t t' nknots x c n hc1 hc2 h
+
+/-- requests the SIMD layout cannot serve are refused (model of the `throw`) -/
+theorem C05_gradient_refused (maxDim : Nat) (T : Table α) (xs : List α) (cs : List Nat)
+    (h : T.dims.length + 1 > maxDim) : ndsplineevalGradient maxDim T xs cs = none := by
+  simp [ndsplineevalGradient, h]
+
+/-- Non-vacuity of `C05_eval_reads_owned`: a 2-d table (orders 1 and 2) with row-major strides and
+centres in range. -/
+example : RowMajor ([⟨1, 5, 3, 4, fun _ => A.zero⟩, ⟨2, 7, 4, 1, fun _ => A.zero⟩] : List (Dim α)) ∧
+    CentersInRange ([⟨1, 5, 3, 4, fun _ => A.zero⟩, ⟨2, 7, 4, 1, fun _ => A.zero⟩] : List (Dim α)) [2, 3] := by
+  refine ⟨⟨rfl, rfl⟩, ⟨by simp, by simp, rfl⟩, ⟨by simp, by simp, rfl⟩, trivial⟩
 
 end PsV
